@@ -1108,6 +1108,7 @@ class DagBuilder:
         self.scratch = scratch or os.environ["VERIF_SCRATCH"]
         self.tag = tag
         self.wts = {}
+        _install_canonical_digest()
         self.home = {}  # rid -> branch name whose repository certainly has it
         self.done = []
         if layout == "shared" and make_repo:
@@ -1343,8 +1344,10 @@ def stacked_local_problems(url, mh, info=None):
     is set when some own revision has a parent that lives only in the fallback."""
     from breezy.repository import Repository
 
+    from breezy.controldir import ControlDir
+
     full = open_branch(url).repository
-    alone = Repository.open(url)
+    alone = ControlDir.open(url).find_repository()  # the branch's repository (own or shared), no fallbacks
     if alone._fallback_repositories:
         raise RuntimeError("Repository.open unexpectedly attached fallbacks")
     rich = alone.supports_rich_root()
@@ -1422,3 +1425,25 @@ def canonical_reads(sim):
             i = j
         else:
             i += 1
+
+
+def _install_canonical_digest():
+    """Checks that commit through local working trees (DagBuilder) hash the canonical form
+    of the event log (see canonical_reads): the digest method of the current run's Sim is
+    wrapped once."""
+    from simkit.sim import cur_sim
+
+    try:
+        sim = cur_sim()
+    except RuntimeError:
+        return
+    if getattr(sim, "_canonical_digest", False):
+        return
+    orig = sim.digest
+
+    def digest():
+        canonical_reads(sim)
+        return orig()
+
+    sim.digest = digest
+    sim._canonical_digest = True
